@@ -147,6 +147,8 @@ structure Pkt where
   ssrc : Nat
   pt   : Nat
   ext  : Option Ext
+  /-- INPUT of the model: the listeners whose channel has no free slot when this packet arrives (`try_send` → `Full`) -/
+  full : List Nat := []
 deriving DecidableEq, Repr
 
 /-- one-byte-header (0xBEDE) scan of `RtpHeader::get_extension` -/
@@ -293,23 +295,26 @@ inductive Outcome where
   | dropped                       -- no listener selected
   | delivered (l : Lid) (v : Via) -- handed to `l`'s channel
   | closedOut (l : Lid) (v : Via) -- `l` selected but its channel is closed: listener removed
+  | fullOut (l : Lid) (v : Via)   -- `l` selected, its channel is open but full: the packet is lost, nothing else changes
 deriving DecidableEq, Repr
 
 /-- `if let Some(tx) = selected && bind_ssrc { bind_ssrc_from_packet(ssrc, tx) }` -/
 def afterSelect (r : Reg) (ssrc : Nat) (l : Lid) (bind : Bool) : Reg :=
   if bind then bindFromPacket r ssrc l else r
 
-/-- `try_send_dropping`: `Ok` → delivered; `Closed` → `by_ssrc.remove(&ssrc); remove_sender(&tx)` -/
-def deliver (r1 : Reg) (ssrc : Nat) (l : Lid) (v : Via) : Reg × Outcome :=
+/-- `try_send_dropping`: `Ok` → delivered; `Closed` → `by_ssrc.remove(&ssrc); remove_sender(&tx)`;
+`Full` → `{}` (a closed channel reports `Closed` whether or not it is also full) -/
+def deliver (r1 : Reg) (ssrc : Nat) (l : Lid) (v : Via) (full : Bool) : Reg × Outcome :=
   if r1.isClosed l then
     (removeSender { r1 with bySsrc := remove ssrc r1.bySsrc } l, .closedOut l v)
+  else if full then (r1, .fullOut l v)
   else (r1, .delivered l v)
 
 /-- demux part of `receive` for one parsed packet -/
 def receive (r : Reg) (p : Pkt) : Reg × Outcome :=
   match select r p with
   | none => (r, .dropped)
-  | some (l, v, bind) => deliver (afterSelect r p.ssrc l bind) p.ssrc l v
+  | some (l, v, bind) => deliver (afterSelect r p.ssrc l bind) p.ssrc l v (p.full.contains l)
 
 inductive Op where
   | regSsrc (ssrc : Nat) (l : Lid)
